@@ -137,6 +137,12 @@ func init() {
 		// ---- bytes
 		"bytes.Equal": func(p *Path, _ *ssa.Function, a []Value) Value {
 			x, y := a[0].(Slice), a[1].(Slice)
+			if bx, by := blobOf(x), blobOf(y); bx != nil || by != nil {
+				if bx == nil || by == nil {
+					panic(p.unsupported("bytes.Equal of an abstract byte string with plain bytes"))
+				}
+				return p.blobEqual(bx, by)
+			}
 			if len(x) != len(y) {
 				return p.tb.False
 			}
@@ -442,4 +448,28 @@ func termInt64(t *Term) int64 {
 		return t.val.Int64()
 	}
 	return t.Signed().Int64()
+}
+
+func blobOf(s Slice) Value {
+	if len(s) == 1 {
+		switch s[0].(type) {
+		case strBlob, jsonBlob:
+			return s[0]
+		}
+	}
+	return nil
+}
+
+func (p *Path) blobEqual(x, y Value) *Term {
+	switch xv := x.(type) {
+	case strBlob:
+		if yv, ok := y.(strBlob); ok {
+			return p.strEqual(xv.s, yv.s)
+		}
+	case jsonBlob:
+		if yv, ok := y.(jsonBlob); ok && types.Identical(xv.t, yv.t) {
+			return p.equal(xv.v, yv.v)
+		}
+	}
+	return p.tb.False
 }
